@@ -14,6 +14,7 @@ Driver handler `ctl` (C03):
     ctl kids CT                   the `nodes` list of every control line that is not an end line, in document
                                   order, `;`-separated; kinds `c` (comment) `o` (other) `l<kw>:<isend>`
     ctl loop <len> <index> <nvals>  LoopContext: `index first last even odd reverse_index cycle-index|none`
+    ctl parents <depth>           loop stack of that depth: `<length of the parent chain> <parent is None> <chain…>`
     ctl decl <el> <name>*         lines of write_variable_declares for plain names
 
     CT    ::= nil | c CT | s <line> <loopRef> <n> K* CT | b <text> <loopRef> (0 | 1 <names>) CT | q <loopRef> <n> K* CT
@@ -193,6 +194,11 @@ def handle : Handler
     pure (" ".intercalate [toString c.index, encBool c.first, encBool c.last, encBool c.even, encBool c.odd,
       toString c.reverseIndex,
       (match c.cycle (List.range nv) with | none => "none" | some i => toString i)])
+  | ["parents", d] => do
+    let d ← d.toNat?
+    let stack := (List.range d).reverse      -- innermost first
+    pure (toString (parentChain stack).length ++ " " ++ encBool (parentOfStack stack).isNone ++ " " ++
+      " ".intercalate ((parentChain stack).map toString))
   | "decl" :: el :: names => do
     let el ← decBool el
     let names ← names.mapM decStr
